@@ -73,7 +73,7 @@ Section Loops.
   Fixpoint fields_covered_s (fs : list (bytes * (fkind * schema))) : bool :=
     match fs with
     | [] => true
-    | f :: t => field_covered (well_covered (snd (snd f))) (project (snd (snd f))) (fst (snd f)) (fst f) m
+    | f :: t => field_covered (well_covered (snd (snd f))) (fst (snd f)) (fst f) m
                 && fields_covered_s t
     end.
 End Loops.
@@ -87,7 +87,7 @@ Lemma known_out_cons f t m : known_out (f :: t) m =
   end.
 Proof. reflexivity. Qed.
 Lemma fields_covered_cons f t m : fields_covered (f :: t) m =
-  field_covered (well_covered (snd (snd f))) (project (snd (snd f))) (fst (snd f)) (fst f) m
+  field_covered (well_covered (snd (snd f))) (fst (snd f)) (fst f) m
   && fields_covered t m.
 Proof. reflexivity. Qed.
 
@@ -144,11 +144,11 @@ Proof.
   destruct (occurrences name m) as [|v [|w t]]; [| |discriminate].
   - destruct kind; inversion H; subst; contradiction.
   - assert (G : forall o, (match pr v with
-                           | Some v' => match kind, v' with FDefEmpty, JObj [] => Some [] | _, _ => Some [(name, v')] end
+                           | Some v' => match kind, v with FDefEmpty, JObj [] => Some [] | _, _ => Some [(name, v')] end
                            | None => None end) = Some o -> In e o -> fst e = name).
     { intros o Ho Hin. destruct (pr v) as [v'|]; [|discriminate].
       destruct kind; try (inversion Ho; subst; destruct Hin as [<-|[]]; reflexivity).
-      destruct v' as [| | | | | |[|x y]]; inversion Ho; subst; try contradiction;
+      destruct v as [| | | | | |[|x y]]; inversion Ho; subst; try contradiction;
         destruct Hin as [<-|[]]; reflexivity. }
     destruct kind; try (exact (G _ H He)).
     destruct v; try (exact (G _ H He)). inversion H; subst. contradiction.
@@ -380,13 +380,13 @@ Lemma field_out_absent pr kind n m : occurrences n m = [] -> kind <> FReq -> fie
 Proof. unfold field_out. intros -> H. destruct kind; [contradiction| |]; reflexivity. Qed.
 
 Lemma field_out_present pr kind n m v v' : occurrences n m = [v] -> pr v = Some v' ->
-  (kind = FOpt -> v <> JNull) -> (kind = FDefEmpty -> v' <> JObj []) ->
+  (kind = FOpt -> v <> JNull) -> (kind = FDefEmpty -> v <> JObj []) ->
   field_out pr kind n m = Some [(n, v')].
 Proof.
   unfold field_out. intros -> Hp H1 H2. destruct kind.
   - rewrite Hp. reflexivity.
   - destruct v; try (rewrite Hp; reflexivity). exfalso. apply H1; reflexivity.
-  - rewrite Hp. destruct v' as [| | | | | |[|x y]]; try reflexivity. exfalso. apply H2; reflexivity.
+  - rewrite Hp. destruct v as [| | | | | |[|x y]]; try reflexivity. exfalso. apply H2; reflexivity.
 Qed.
 
 Definition lossless_at (s : schema) : Prop :=
@@ -405,7 +405,7 @@ Proof.
     rewrite unknown_cons. set (U := unknown_members (map fst fields) m) in *.
     assert (NU : NoDup (map fst U)) by (apply NoDup_filter_keys, Nm).
     unfold field_covered in Cf. destruct (find_assoc n m) as [v|] eqn:Fn.
-    + apply andb_true_iff in Cf as [Wv Ck]. destruct (Hf v Wv) as (v' & Pv & Cv). cbn [snd] in Pv, Cv.
+    + apply andb_true_iff in Cf as [Wv Ck]. unfold kind_ok in Ck. destruct (Hf v Wv) as (v' & Pv & Cv). cbn [snd] in Pv, Cv.
       rewrite (field_out_present _ kind n m v v' (find_some_occurrences _ _ _ Nm Fn) Pv).
       * eexists. split; [reflexivity|]. cbn [app].
         change (cmap ((n, v') :: (known_t ++ filter (not_named n) U)))
@@ -417,7 +417,7 @@ Proof.
         cbn [map fst snd] in PU. fold (cmap (filter (not_named n) U)) in PU.
         rewrite <- Pt. rewrite PU. apply Permutation_middle.
       * intros -> ->. discriminate.
-      * intros -> E. rewrite Pv, E in Ck. discriminate.
+      * intros -> ->. discriminate.
     + rewrite (field_out_absent _ kind n m (find_none_occurrences _ _ Fn)) by (intros ->; discriminate).
       eexists. split; [reflexivity|]. cbn [app].
       rewrite filter_absent by (unfold U; rewrite find_unknown; assumption). exact Pt.
@@ -534,6 +534,302 @@ Theorem reformat_accepted_covered s b j1 j2 :
 Proof.
   intros W1 W2 C. destruct (lossless s j1 W1) as (r1 & P1 & E1). destruct (lossless s j2 W2) as (r2 & P2 & E2).
   unfold accepts. rewrite P1, P2, !canon_is_cs, E1, E2, <- !canon_is_cs, C. reflexivity.
+Qed.
+
+
+(* ---------------------------------------------------------------------------------------- *)
+(* member re-ordering: the relation [reorder] is defined in Model/Schema.v *)
+Section reorder_ind2.
+  Variable P : jv -> jv -> Prop.
+  Hypothesis Hrefl : forall v, P v v.
+  Hypothesis Harr : forall l1 l2, Forall2 P l1 l2 -> P (JArr l1) (JArr l2).
+  Hypothesis Hobj : forall m1 m2 m3,
+      Forall2 (fun a b => fst a = fst b /\ P (snd a) (snd b)) m1 m2 ->
+      NoDup (map fst m1) -> Permutation m2 m3 -> P (JObj m1) (JObj m3).
+  Fixpoint reorder_ind2 v1 v2 (H : reorder v1 v2) {struct H} : P v1 v2 :=
+    match H in reorder a b return P a b with
+    | ro_refl v => Hrefl v
+    | ro_arr l1 l2 F =>
+        Harr l1 l2
+             ((fix go l1 l2 (F : Forall2 reorder l1 l2) {struct F} : Forall2 P l1 l2 :=
+                 match F in Forall2 _ a b return Forall2 P a b with
+                 | Forall2_nil _ => Forall2_nil _
+                 | @Forall2_cons _ _ _ x y a b h t => @Forall2_cons _ _ _ x y a b (reorder_ind2 x y h) (go a b t)
+                 end) l1 l2 F)
+    | ro_obj m1 m2 m3 F N Pm =>
+        Hobj m1 m2 m3
+             ((fix go m1 m2 (F : Forall2 (fun a b => fst a = fst b /\ reorder (snd a) (snd b)) m1 m2) {struct F}
+                : Forall2 (fun a b => fst a = fst b /\ P (snd a) (snd b)) m1 m2 :=
+                 match F in Forall2 _ a b return Forall2 (fun a b => fst a = fst b /\ P (snd a) (snd b)) a b with
+                 | Forall2_nil _ => Forall2_nil _
+                 | @Forall2_cons _ _ _ x y a b h t =>
+                     @Forall2_cons _ _ _ x y a b
+                                   (match h with conj e r => conj e (reorder_ind2 (snd x) (snd y) r) end) (go a b t)
+                 end) m1 m2 F) N Pm
+    end.
+End reorder_ind2.
+
+Lemma Forall2_keys (R : jv -> jv -> Prop) (m1 m2 : members) :
+  Forall2 (fun a b => fst a = fst b /\ R (snd a) (snd b)) m1 m2 -> map fst m2 = map fst m1.
+Proof. induction 1 as [|a b m1 m2 [E _] F IH]; [reflexivity|]. cbn [map]. rewrite E, IH. reflexivity. Qed.
+
+Theorem reorder_cs v1 v2 : reorder v1 v2 -> cs v1 = cs v2.
+Proof.
+  induction 1 as [v|l1 l2 F|m1 m2 m3 F N Pm] using reorder_ind2.
+  - reflexivity.
+  - apply canon_spec_arr_ext. exact F.
+  - transitivity (cs (JObj m2)).
+    + apply canon_spec_obj_ext. exact F.
+    + apply canon_spec_members_order; [exact Pm|].
+      change (NoDup (map fst m2)). rewrite (Forall2_keys (fun a b => cs a = cs b) _ _ F). exact N.
+Qed.
+
+Lemma Forall2_refl {A} (R : A -> A -> Prop) (l : list A) : (forall x, R x x) -> Forall2 R l l.
+Proof. intro H. induction l; constructor; auto. Qed.
+
+Lemma reorder_arr_inv l1 v2 : reorder (JArr l1) v2 -> exists l2, v2 = JArr l2 /\ Forall2 reorder l1 l2.
+Proof.
+  intro H. inversion H; subst.
+  - exists l1. split; [reflexivity|]. apply Forall2_refl. apply ro_refl.
+  - eexists. split; [reflexivity|assumption].
+Qed.
+
+Lemma reorder_obj_inv m1 v2 : reorder (JObj m1) v2 ->
+  exists m2 m3, v2 = JObj m3 /\ Forall2 (fun a b => fst a = fst b /\ reorder (snd a) (snd b)) m1 m2
+                /\ Permutation m2 m3.
+Proof.
+  intro H. inversion H; subst.
+  - exists m1, m1. split; [reflexivity|]. split; [|reflexivity]. apply Forall2_refl. intro x. split; [reflexivity|apply ro_refl].
+  - eexists _, _. split; [reflexivity|]. split; eassumption.
+Qed.
+
+Lemma Forall2_In_r {A B} (R : A -> B -> Prop) a b y : Forall2 R a b -> In y b -> exists x, In x a /\ R x y.
+Proof.
+  induction 1 as [|x0 y0 a b Hxy F IH]; intro Hin; [contradiction|]. destruct Hin as [<-|Hin].
+  - exists x0. split; [left; reflexivity|exact Hxy].
+  - destruct (IH Hin) as (x & Hx & Rx). exists x. split; [right; exact Hx|exact Rx].
+Qed.
+
+Lemma NoDup_nodup_bytes l : NoDup l -> nodup_bytes l = true.
+Proof.
+  induction 1 as [|x l Nx Nl IH]; [reflexivity|]. cbn [nodup_bytes]. rewrite IH, andb_true_r.
+  apply negb_true_iff. destruct (mem_bytes x l) eqn:E; [|reflexivity]. apply mem_bytes_In in E. contradiction.
+Qed.
+
+Lemma find_assoc_In n (m : members) v : find_assoc n m = Some v -> In (n, v) m.
+Proof.
+  induction m as [|[k x] m IH]; cbn [find_assoc]; [discriminate|]. destruct (bytes_eqb n k) eqn:E.
+  - intro H. inversion H; subst. apply bytes_eqb_eq in E. subst. left. reflexivity.
+  - intro H. right. apply IH, H.
+Qed.
+
+Lemma In_find_assoc n (m : members) v : NoDup (map fst m) -> In (n, v) m -> find_assoc n m = Some v.
+Proof.
+  induction m as [|[k x] m IH]; intros N Hin; [contradiction|]. cbn [find_assoc]. cbn [map fst] in N.
+  inversion N as [|? ? Nk Nm]; subst. destruct Hin as [E|Hin].
+  - inversion E; subst. rewrite bytes_eqb_refl. reflexivity.
+  - destruct (bytes_eqb n k) eqn:E.
+    + apply bytes_eqb_eq in E. subst k. exfalso. apply Nk. apply in_map_iff. exists (n, v). auto.
+    + apply IH; assumption.
+Qed.
+
+Lemma find_assoc_perm n (a b : members) : NoDup (map fst a) -> Permutation a b ->
+  find_assoc n a = find_assoc n b.
+Proof.
+  intros N P.
+  assert (Nb : NoDup (map fst b)) by (eapply Permutation_NoDup; [apply Permutation_map, P|exact N]).
+  destruct (find_assoc n a) as [v|] eqn:Fa.
+  - symmetry. apply In_find_assoc; [exact Nb|]. eapply Permutation_in; [exact P|]. apply find_assoc_In, Fa.
+  - destruct (find_assoc n b) as [v|] eqn:Fb; [|reflexivity]. exfalso.
+    apply find_assoc_In in Fb. apply (Permutation_in _ (Permutation_sym P)) in Fb.
+    rewrite (In_find_assoc _ _ _ N Fb) in Fa. discriminate.
+Qed.
+
+Lemma find_assoc_Forall2 (R : jv -> jv -> Prop) n (m1 m2 : members) :
+  Forall2 (fun a b => fst a = fst b /\ R (snd a) (snd b)) m1 m2 ->
+  match find_assoc n m1, find_assoc n m2 with
+  | Some v1, Some v2 => R v1 v2
+  | None, None => True
+  | _, _ => False
+  end.
+Proof.
+  induction 1 as [|[k1 x1] [k2 x2] m1 m2 [E Rx] F IH]; cbn [find_assoc]; [exact I|].
+  cbn [fst snd] in *. subst k2. destruct (bytes_eqb n k1); [exact Rx|exact IH].
+Qed.
+
+Lemma perm_filter {A} (f : A -> bool) a b : Permutation a b -> Permutation (filter f a) (filter f b).
+Proof.
+  induction 1 as [|x a b P IH|x y a|a b c P1 IH1 P2 IH2]; cbn [filter].
+  - constructor.
+  - destruct (f x); [apply perm_skip|]; exact IH.
+  - destruct (f x), (f y); try reflexivity. apply perm_swap.
+  - eapply perm_trans; eassumption.
+Qed.
+
+Lemma unknown_Forall2 (R : jv -> jv -> Prop) names (m1 m2 : members) :
+  Forall2 (fun a b => fst a = fst b /\ R (snd a) (snd b)) m1 m2 ->
+  Forall2 (fun a b => fst a = fst b /\ R (snd a) (snd b)) (unknown_members names m1) (unknown_members names m2).
+Proof.
+  unfold unknown_members. induction 1 as [|a b m1 m2 [E Rx] F IH]; cbn [filter]; [constructor|].
+  rewrite E. destruct (negb (mem_bytes (fst b) names)); [constructor; [split; assumption|exact IH]|exact IH].
+Qed.
+
+Lemma reorder_from v1 v2 : reorder v1 v2 ->
+  match v1 with JArr _ | JObj _ => True | _ => v2 = v1 end.
+Proof. intro H. destruct H; [destruct v; try exact I; reflexivity|exact I|exact I]. Qed.
+
+Lemma reorder_to v1 v2 : reorder v1 v2 ->
+  match v2 with JArr _ | JObj _ => True | _ => v1 = v2 end.
+Proof. intro H. destruct H; [destruct v; try exact I; reflexivity|exact I|exact I]. Qed.
+
+Lemma str_array_reorder v1 v2 x : str_array v1 = Some x -> reorder v1 v2 -> v2 = v1.
+Proof.
+  destruct v1 as [| | | | | l1 |]; cbn [str_array]; try discriminate.
+  destruct (forallb is_str l1) eqn:A; [|discriminate]. intros _ H.
+  apply reorder_arr_inv in H as (l2 & -> & F). f_equal.
+  induction F as [|a b l1 l2 Rab F IH]; [reflexivity|]. cbn [forallb] in A. apply andb_true_iff in A as [Aa Al].
+  rewrite (IH Al). destruct a; try discriminate. apply reorder_from in Rab. rewrite Rab. reflexivity.
+Qed.
+
+Lemma reorder_to_empty v1 : reorder v1 (JObj []) -> v1 = JObj [].
+Proof.
+  intro H. inversion H as [|?|m1 m2 m3 F N Pm]; subst; [reflexivity|].
+  apply Permutation_sym, Permutation_nil in Pm. subst m2. inversion F. reflexivity.
+Qed.
+
+Lemma kind_ok_reorder kind v1 v2 : reorder v1 v2 -> kind_ok kind v1 = true -> kind_ok kind v2 = true.
+Proof.
+  intros H K. destruct kind.
+  - destruct v2; reflexivity.
+  - destruct v2; try reflexivity. apply reorder_to in H. subst v1. exact K.
+  - destruct v2 as [| | | | | |[|x y]]; try reflexivity. exfalso.
+    apply reorder_to_empty in H. subst v1. discriminate.
+Qed.
+
+Lemma forallb_perm {A} (f : A -> bool) a b : Permutation a b -> forallb f a = true -> forallb f b = true.
+Proof.
+  intros P H. apply forallb_forall. intros x Hx. rewrite forallb_forall in H. apply H.
+  eapply Permutation_in; [apply Permutation_sym, P|exact Hx].
+Qed.
+
+Lemma map_opt_perm {A B} (f : A -> option B) a b : Permutation a b ->
+  forall da, map_opt f a = Some da -> exists db, map_opt f b = Some db /\ Permutation da db.
+Proof.
+  induction 1 as [|x a b P IH|x y a|a b c P1 IH1 P2 IH2]; intros da H; cbn [map_opt] in *.
+  - inversion H. exists []. split; [reflexivity|constructor].
+  - destruct (f x) as [fx|]; [|discriminate]. destruct (map_opt f a) as [ta|]; [|discriminate].
+    inversion H; subst. destruct (IH _ eq_refl) as (db & E & Pd). rewrite E.
+    exists (fx :: db). split; [reflexivity|apply perm_skip, Pd].
+  - destruct (f y) as [fy|]; [|discriminate]. destruct (f x) as [fx|]; [|discriminate].
+    destruct (map_opt f a) as [ta|]; [|discriminate]. inversion H; subst.
+    exists (fx :: fy :: ta). split; [reflexivity|apply perm_swap].
+  - destruct (IH1 _ H) as (db & E & Pd). destruct (IH2 _ E) as (dc & E2 & Pd2).
+    exists dc. split; [exact E2|eapply perm_trans; eassumption].
+Qed.
+
+Lemma keys_ok_perm kk a b : Permutation a b -> keys_ok kk a = true -> keys_ok kk b = true.
+Proof.
+  intros P H. destruct kk; cbn [keys_ok] in *.
+  - reflexivity.
+  - eapply forallb_perm; eassumption.
+  - eapply forallb_perm; eassumption.
+  - destruct (map_opt hex_decode a) as [da|] eqn:E; [|discriminate].
+    destruct (map_opt_perm _ _ _ P _ E) as (db & Eb & Pd). rewrite Eb.
+    apply NoDup_nodup_bytes. eapply Permutation_NoDup; [exact Pd|]. apply nodup_bytes_NoDup, H.
+Qed.
+
+Definition mrel (m1 m2 : members) : Prop :=
+  Forall2 (fun a b => fst a = fst b /\ reorder (snd a) (snd b)) m1 m2.
+
+Definition wc_stable (s : schema) : Prop :=
+  forall j1 j2, reorder j1 j2 -> well_covered s j1 = true -> well_covered s j2 = true.
+
+Lemma fields_covered_reorder fields : Forall (fun f => wc_stable (snd (snd f))) fields ->
+  forall m1 m2 m3, mrel m1 m2 -> NoDup (map fst m1) -> Permutation m2 m3 ->
+  fields_covered fields m1 = true -> fields_covered fields m3 = true.
+Proof.
+  induction 1 as [|[n [kind s]] fields Hf Hfs IH]; intros m1 m2 m3 F N Pm C; [reflexivity|].
+  rewrite fields_covered_cons in *. cbn [fst snd] in *. apply andb_true_iff in C as [Cf Cfs].
+  apply andb_true_iff. split; [|eapply IH; eassumption].
+  unfold field_covered in *.
+  assert (N2 : NoDup (map fst m2)) by (rewrite (Forall2_keys reorder _ _ F); exact N).
+  rewrite <- (find_assoc_perm n m2 m3 N2 Pm).
+  pose proof (find_assoc_Forall2 reorder n m1 m2 F) as Hn.
+  destruct (find_assoc n m1) as [v1|], (find_assoc n m2) as [v2|]; try contradiction; [|exact Cf].
+  apply andb_true_iff in Cf as [Wv Kv]. apply andb_true_iff. split.
+  - exact (Hf v1 v2 Hn Wv).
+  - exact (kind_ok_reorder _ _ _ Hn Kv).
+Qed.
+
+Lemma rest_covered_reorder tag r names m1 m2 m3 :
+  mrel m1 m2 -> NoDup (map fst m1) -> Permutation m2 m3 ->
+  rest_covered tag r names m1 = true -> rest_covered tag r names m3 = true.
+Proof.
+  intros F N Pm C. unfold rest_covered in *.
+  assert (N2 : NoDup (map fst m2)) by (rewrite (Forall2_keys reorder _ _ F); exact N).
+  pose proof (unknown_Forall2 reorder names m1 m2 F) as FU.
+  assert (PU : Permutation (unknown_members names m2) (unknown_members names m3))
+    by (apply perm_filter, Pm).
+  remember (unknown_members names m1) as U1 eqn:E1 in *.
+  remember (unknown_members names m2) as U2 eqn:E2 in *.
+  remember (unknown_members names m3) as U3 eqn:E3 in *. clear E1 E2 E3.
+  destruct r as [|skip|].
+  - apply andb_true_iff in C as [Ct Cu]. rewrite Ct. cbn [andb].
+    destruct U1; [|discriminate]. inversion FU; subst. apply Permutation_nil in PU. subst. reflexivity.
+  - destruct tag as [t|]; [|exact C]. apply andb_true_iff in C as [Cs Ct]. rewrite Cs. cbn [andb].
+    rewrite <- (find_assoc_perm k_type m2 m3 N2 Pm).
+    pose proof (find_assoc_Forall2 reorder k_type m1 m2 F) as Hn.
+    destruct (find_assoc k_type m1) as [v1|]; [|discriminate].
+    destruct (find_assoc k_type m2) as [v2|]; [|contradiction].
+    destruct v1; try discriminate. apply reorder_from in Hn. subst v2. exact Ct.
+  - apply andb_true_iff in C as [Ct Cu]. rewrite Ct. cbn [andb].
+    destruct U1 as [|kv1 [|]]; try discriminate.
+    inversion FU as [|? kv2 ? U2' [Ek Rv] FU']; subst. inversion FU'; subst.
+    apply Permutation_length_1_inv in PU. subst U3.
+    apply andb_true_iff in Cu as [Ck Ca]. rewrite <- Ek, Ck. cbn [andb].
+    destruct (str_array (snd kv1)) as [x|] eqn:Sa; [|discriminate].
+    rewrite (str_array_reorder _ _ _ Sa Rv), Sa. reflexivity.
+Qed.
+
+Theorem reorder_covered s : wc_stable s.
+Proof.
+  induction s as [| | | nz | | | l | e IH | kk v IH | tag fields r IH] using schema_ind2; intros j1 j2 R W.
+  - reflexivity.
+  - destruct j1; cbn [well_covered project] in W; try discriminate; apply reorder_from in R; subst j2; exact W.
+  - destruct j1; cbn [well_covered project] in W; try discriminate; apply reorder_from in R; subst j2; exact W.
+  - destruct j1; cbn [well_covered project] in W; try discriminate; apply reorder_from in R; subst j2; exact W.
+  - destruct j1; cbn [well_covered project] in W; try discriminate; apply reorder_from in R; subst j2; exact W.
+  - destruct j1; cbn [well_covered project] in W; try discriminate; apply reorder_from in R; subst j2; exact W.
+  - destruct j1; cbn [well_covered project] in W; try discriminate; apply reorder_from in R; subst j2; exact W.
+  - destruct j1 as [| | | | | l1 |]; cbn [well_covered] in W; try discriminate.
+    apply reorder_arr_inv in R as (l2 & -> & F). cbn [well_covered]. apply forallb_forall. intros y Hy.
+    destruct (Forall2_In_r _ _ _ _ F Hy) as (x & Hx & Rxy). rewrite forallb_forall in W.
+    exact (IH x y Rxy (W x Hx)).
+  - destruct j1 as [| | | | | | m1]; cbn [well_covered] in W; try discriminate.
+    apply reorder_obj_inv in R as (m2 & m3 & -> & F & Pm). cbn [well_covered].
+    apply andb_true_iff in W as [Wk Wv]. apply andb_true_iff. split.
+    + apply (keys_ok_perm kk (map fst m1)); [|exact Wk]. rewrite <- (Forall2_keys reorder _ _ F).
+      apply Permutation_map, Pm.
+    + apply forallb_forall. intros y Hy. apply (Permutation_in _ (Permutation_sym Pm)) in Hy.
+      destruct (Forall2_In_r _ _ _ _ F Hy) as (x & Hx & Ek & Rxy). rewrite forallb_forall in Wv.
+      exact (IH _ _ Rxy (Wv x Hx)).
+  - destruct j1 as [| | | | | | m1]; try discriminate. rewrite well_covered_obj in W.
+    apply reorder_obj_inv in R as (m2 & m3 & -> & F & Pm). rewrite well_covered_obj.
+    apply andb_true_iff in W as [W Wr]. apply andb_true_iff in W as [W Wf].
+    apply andb_true_iff in W as [W Wt]. apply andb_true_iff in W as [Wm Wn].
+    pose proof (nodup_bytes_NoDup _ Wm) as N1.
+    rewrite Wn, Wt, (fields_covered_reorder fields IH m1 m2 m3 F N1 Pm Wf),
+      (rest_covered_reorder tag r _ m1 m2 m3 F N1 Pm Wr), !andb_true_r.
+    apply NoDup_nodup_bytes. eapply Permutation_NoDup; [apply Permutation_map, Pm|].
+    rewrite (Forall2_keys reorder _ _ F). exact N1.
+Qed.
+
+(* C12_reformat_accepted *)
+Theorem reformat_accepted s b j1 j2 :
+  well_covered s j1 = true -> reorder j1 j2 -> accepts s b j1 = accepts s b j2.
+Proof.
+  intros W R. apply reformat_accepted_covered; [exact W|exact (reorder_covered s j1 j2 R W)|].
+  rewrite !canon_is_cs. apply reorder_cs, R.
 Qed.
 
 (* ---------------------------------------------------------------------------------------- *)
